@@ -546,7 +546,7 @@ func c40Configs(c *vk.Ctx, emit func(c40Cfg)) {
 		}
 		encaps = []string{"none", "ipip", "vxlan", "both"}
 		hepsH = hepLayouts(pol)
-		ewH = []ew{{"RETURN", "allow"}}
+		ewH = []ew{{"RETURN", "allow"}, {"DROP", "deny"}}
 		hepsW = hepsH
 		maW = allow2
 	}
